@@ -1,6 +1,9 @@
 package interpreter
 
-import "fmt"
+import (
+	"fmt"
+	"sort"
+)
 
 type NativeDeleteFn struct{}
 
@@ -58,7 +61,7 @@ func (n NativeKeysFn) Call(i *Interpreter, arguments []interface{}) (interface{}
 	}
 
 	keys := make([]interface{}, 0, len(object))
-	for key := range object {
+	for _, key := range sortedKeys(object) {
 		keys = append(keys, key)
 	}
 
@@ -86,8 +89,8 @@ func (n NativeValuesFn) Call(i *Interpreter, arguments []interface{}) (interface
 	}
 
 	values := make([]interface{}, 0, len(object))
-	for _, value := range object {
-		values = append(values, value)
+	for _, key := range sortedKeys(object) {
+		values = append(values, object[key])
 	}
 
 	return values, nil
@@ -99,4 +102,15 @@ func (n NativeValuesFn) Arity() int {
 
 func (n NativeValuesFn) String() string {
 	return "<native fn values>"
+}
+
+// sortedKeys lists the property names of an object in ascending order, so that
+// key and value listings are reproducible and consistent with each other.
+func sortedKeys(object map[string]interface{}) []string {
+	keys := make([]string, 0, len(object))
+	for key := range object {
+		keys = append(keys, key)
+	}
+	sort.Strings(keys)
+	return keys
 }
